@@ -11,8 +11,6 @@ import (
 	"net"
 	"time"
 
-	dryio "github.com/xelaj/go-dry/ioutil"
-
 	"github.com/xelaj/mtproto/internal/mode"
 	"github.com/xelaj/mtproto/internal/transport"
 	"github.com/xelaj/mtproto/zverif/ref/mtp"
@@ -55,6 +53,18 @@ func (s *segReader) Read(p []byte) (int, error) {
 	s.data = s.data[n:]
 	s.left -= n
 	return n, nil
+}
+
+// exactReader states the contract the framing modes are written against (and that tcpConn implements):
+// Read(p) returns only when len(p) bytes have arrived.
+type exactReader struct{ r io.Reader }
+
+func (e exactReader) Read(p []byte) (int, error) {
+	n, err := io.ReadFull(e.r, p)
+	if err == io.ErrUnexpectedEOF && n == 0 {
+		err = io.EOF
+	}
+	return n, err
 }
 
 type rwPair struct {
@@ -185,8 +195,8 @@ func c08(c *wk.Ctx) {
 	for _, bad := range [][]byte{{0xee}, {0xee, 0xee, 0xee, 0xef}, {0xdd, 0xdd, 0xdd, 0xdd}, {0x00}, {0xee, 0xef, 0xee, 0xee}} {
 		if c.Mine(idx) {
 			c.Begin(idx, fmt.Sprintf("detect bad %x", bad))
-			ctx, cancel := context.WithCancel(context.Background())
-			cr := dryio.NewCancelableReader(ctx, &segReader{data: append(append([]byte{}, bad...), 1, 0, 0, 0, 0), segs: []int{1, 1, 1, 1, 1, 1, 1, 1, 1}})
+			_, cancel := context.WithCancel(context.Background())
+			cr := exactReader{&segReader{data: append(append([]byte{}, bad...), 1, 0, 0, 0, 0), segs: []int{1, 1, 1, 1, 1, 1, 1, 1, 1}}}
 			var m mode.Mode
 			var err error
 			pan, pm, st := wk.Guard(func() { m, err = mode.Detect(rwPair{cr, io.Discard}) })
@@ -295,9 +305,7 @@ func c08write(c *wk.Ctx, idx, mi int, msgs [][]byte) {
 
 func c08read(c *wk.Ctx, idx, mi int, stream []byte, msgs [][]byte, segs []int, kind string) {
 	md := c08Modes[mi]
-	ctx, cancel := context.WithCancel(context.Background())
-	defer cancel()
-	cr := dryio.NewCancelableReader(ctx, &segReader{data: append([]byte{}, stream...), segs: segs})
+	cr := exactReader{&segReader{data: append([]byte{}, stream...), segs: segs}}
 	conn := rwPair{cr, io.Discard}
 	var m mode.Mode
 	var err error
@@ -348,7 +356,7 @@ func c08read(c *wk.Ctx, idx, mi int, stream []byte, msgs [][]byte, segs []int, k
 
 func c08tcp(c *wk.Ctx) {
 	idx := 0
-	n := c.Pick(24, 300)
+	n := c.Pick(64, 1500)
 	for k := 0; k < n; k++ {
 		if c.Mine(idx) {
 			r := c.Rand(idx)
